@@ -239,6 +239,9 @@ pub fn step(
     })
 }
 
+/// the actions of the deeper plan (names as printed by Action::name)
+const CORE_ACTIONS: [&str; 12] = ["edit:skip_add", "edit:variant_add", "edit:field_add", "edit:event_add", "edit:move_type", "edit:rename_command", "edit:blank_line_before_command", "edit:add_unreachable_type", "cfg:visualize", "cfg:mode", "delete:types.ts", "nop"];
+
 fn actions_for(alphabet: &[Edit], st: &HState, with_cfg: bool) -> Vec<Action> {
     let mut v: Vec<Action> = alphabet.iter().map(|e| Action::Edit(e.name.clone())).collect();
     if with_cfg {
@@ -360,10 +363,19 @@ pub fn run(tier: Tier) -> CheckResult {
         for zod in [false, true] {
             // seam plans: all runs through the CLI, all through the build path, and (b0 only)
             // alternating between the two, starting with either
-            let plans: Vec<(Seam, bool)> = if *base_name == "b0" { vec![(Seam::Cli, false), (Seam::Build, false), (Seam::Cli, true), (Seam::Build, true)] } else { vec![(Seam::Cli, false), (Seam::Build, false)] };
-            for (seam, alternating) in plans {
+            // (seam, alternating?, core alphabet only?)
+            let mut plans: Vec<(Seam, bool, bool)> = if *base_name == "b0" { vec![(Seam::Cli, false, false), (Seam::Build, false, false), (Seam::Cli, true, false), (Seam::Build, true, false)] } else { vec![(Seam::Cli, false, false), (Seam::Build, false, false)] };
+            if *base_name == "b0" {
+                // one level deeper over a core alphabet of actions that interact with each other
+                // (reachability, visualisation, mode, renames, moves, file loss)
+                plans.push((Seam::Cli, false, true));
+                if tier == Tier::Thorough {
+                    plans.push((Seam::Build, true, true));
+                }
+            }
+            for (seam, alternating, core) in plans {
                 // the build path at depth 3 is run only for b0 to bound cost
-                let d = if (seam == Seam::Build || alternating) && tier == Tier::Thorough && *base_name != "b0" { 2 } else if alternating { 2 } else { depth };
+                let d = if core { depth + 1 } else if (seam == Seam::Build || alternating) && tier == Tier::Thorough && *base_name != "b0" { 2 } else if alternating { if tier == Tier::Thorough { 3 } else { 2 } } else { depth };
                 let Some(s0) = initial_state(&base, zod, seam) else {
                     res.machinery_errors.push(format!("initial generation failed for {} {} {}", base_name, zod, seam.name()));
                     continue;
@@ -382,7 +394,7 @@ pub fn run(tier: Tier) -> CheckResult {
                     let work: Vec<(usize, Action)> = frontier
                         .iter()
                         .enumerate()
-                        .flat_map(|(i, st)| actions_for(&alphabet, st, true).into_iter().map(move |a| (i, a)))
+                        .flat_map(|(i, st)| actions_for(&alphabet, st, true).into_iter().filter(|a| !core || CORE_ACTIONS.contains(&a.name().as_str())).map(move |a| (i, a)))
                         .collect();
                     let results: Vec<(usize, Action, Option<StepOutcome>)> = work
                         .into_par_iter()
@@ -417,11 +429,11 @@ pub fn run(tier: Tier) -> CheckResult {
                         if !o.discrepancies.is_empty() {
                             if level == 1 {
                                 bad_first_actions.insert(a.name());
-                                violations.push(make_violation(base_name, seam, zod, &st.history, &o).field("alternating", alternating.to_string()).with_replay_field("alternating", json!(alternating)));
+                                violations.push(make_violation(base_name, seam, zod, &st.history, &o).field("alternating", alternating.to_string()).field("plan", if core { "core-deep" } else { "full" }).with_replay_field("alternating", json!(alternating)));
                             } else if bad_first_actions.contains(&a.name()) {
                                 derived += 1;
                             } else {
-                                violations.push(make_violation(base_name, seam, zod, &st.history, &o).field("alternating", alternating.to_string()).with_replay_field("alternating", json!(alternating)));
+                                violations.push(make_violation(base_name, seam, zod, &st.history, &o).field("alternating", alternating.to_string()).field("plan", if core { "core-deep" } else { "full" }).with_replay_field("alternating", json!(alternating)));
                             }
                             continue; // bad states are not expanded
                         }
@@ -436,7 +448,7 @@ pub fn run(tier: Tier) -> CheckResult {
                     }
                     frontier = next_frontier;
                 }
-                completed.push(json!({"base":base_name,"zod":zod,"seam":seam.name(),"alternating_seams":alternating,"completed_depth":d,"edit_alphabet":alphabet.len(),"cfg_toggles":CFG_TOGGLES.len()}));
+                completed.push(json!({"base":base_name,"zod":zod,"seam":seam.name(),"alternating_seams":alternating,"core_alphabet_only":core,"completed_depth":d,"edit_alphabet":alphabet.len(),"cfg_toggles":CFG_TOGGLES.len()}));
             }
         }
     }
@@ -459,7 +471,7 @@ pub fn run(tier: Tier) -> CheckResult {
     res.coverage.set("completed", json!(completed));
     res.coverage.set("samples", json!(samples));
     res.coverage.set("exhaustive", exhaustive);
-    res.coverage.set("rule", "explicit-state BFS: state = (sources variant, configuration, output directory minus timestamp line, cache file); transition = one action (toggle a source edit / configuration setting, delete or truncate a generated file, or nothing) followed by one non-forced run of the real binary or build-script path under the identity schedule; invariant in every state reached by a successful run: every file of a forced reference generation exists with equal content; states violating the invariant are reported and not expanded; a history is non-trivial when it contains at least one edit/config/file action and its last run exited 0");
+    res.coverage.set("rule", "explicit-state BFS: state = (sources variant, configuration, output directory minus timestamp line, cache file); transition = one action (toggle a source edit / configuration setting, delete or truncate a generated file, or nothing) followed by one non-forced run of the real binary or build-script path under the identity schedule; invariant in every state reached by a successful run: every file of a forced reference generation exists with equal content; states violating the invariant are reported and not expanded; plans: the full action alphabet to the tier's depth through one seam, the same with alternating seams (b0), and one level deeper over a twelve-action core alphabet (b0); a history is non-trivial when it contains at least one edit/config/file action and its last run exited 0");
     res.assumptions = vec![
         "all runs use the hooks-on binary under the identity schedule so that byte comparison is meaningful (order nondeterminism is C13's business)".into(),
         "edit alphabet: one representative per output-affecting edit class (projects.rs)".into(),
